@@ -34,14 +34,15 @@ type pairing struct {
 	hash       hrw.HashFactory
 	score      hrw.UIntToFloat
 	exhaustive bool
+	rehash     bool // UInt64ToFloat64 over murmur3: has the re-hash-on-zero branch
 }
 
 var pairings = []pairing{
 	// the pairing used by lib/hashring and by the CAStore volume mapping
-	{"murmur3+UInt64ToFloat64", hrw.Murmur3Hash, hrw.UInt64ToFloat64, true},
-	{"sha256+BigIntToFloat64", func() hash.Hash { return sha256.New() }, hrw.BigIntToFloat64, false},
-	{"md5+BigIntToFloat64", func() hash.Hash { return md5.New() }, hrw.BigIntToFloat64, false},
-	{"murmur3+BigIntToFloat64", hrw.Murmur3Hash, hrw.BigIntToFloat64, false},
+	{"murmur3+UInt64ToFloat64", hrw.Murmur3Hash, hrw.UInt64ToFloat64, true, true},
+	{"sha256+BigIntToFloat64", func() hash.Hash { return sha256.New() }, hrw.BigIntToFloat64, false, false},
+	{"md5+BigIntToFloat64", func() hash.Hash { return md5.New() }, hrw.BigIntToFloat64, false, false},
+	{"murmur3+BigIntToFloat64", hrw.Murmur3Hash, hrw.BigIntToFloat64, false, false},
 }
 
 type node struct {
@@ -144,6 +145,8 @@ type task struct {
 	seed      int64
 	nperms    int
 	newcomers []node
+	special   map[string]bool // crafted keys: exercised by every removal even in the quick tier
+	liveSteps int
 }
 
 type finding struct {
@@ -153,6 +156,8 @@ type finding struct {
 
 type result struct {
 	keys, orderings, removals, additions, prefixes, ties int64
+	rehashHits, liveSteps, liveLookups                   int64
+	liveKinds                                            map[string]int64
 	distinctPerms                                        int
 	findings                                             []finding
 }
@@ -255,6 +260,9 @@ func runTask(tk *task) *result {
 		scores := make([]float64, n)
 		tie := false
 		for i, nd := range got {
+			if tk.p.rehash && gen.MurmurLow53Zero(k, nd.Label) {
+				res.rehashHits++ // this (key, node) drives UInt64ToFloat64 through its re-hash branch
+			}
 			scores[i] = nd.Score(k)
 			if math.IsNaN(scores[i]) {
 				res.add("nan-score-for-valid-hex-key/"+tk.p.name, base(map[string]interface{}{"key": k, "node": nd.Label}))
@@ -308,7 +316,7 @@ func runTask(tk *task) *result {
 			res.add("removenode-did-not-remove-exactly-one/"+tk.p.name, base(map[string]interface{}{"removed": x.Label}))
 			continue
 		}
-		sel := func(ki int) bool { return (ki+xi)%tk.stride == 0 }
+		sel := func(ki int) bool { return (ki+xi)%tk.stride == 0 || tk.special[tk.keys[ki]] }
 		for ki, k := range tk.keys {
 			if !sel(ki) || len(full[ki]) != n {
 				continue
@@ -338,7 +346,7 @@ func runTask(tk *task) *result {
 		work := build(tk.p, permNodes(r, tk.nodes))
 		work.AddNode(f.Label, f.Weight)
 		for ki, k := range tk.keys {
-			if (ki+fi)%tk.stride != 0 || len(full[ki]) != n {
+			if ((ki+fi)%tk.stride != 0 && !tk.special[k]) || len(full[ki]) != n {
 				continue
 			}
 			o := labels(work.GetOrderedNodes(k, n+1))
@@ -349,7 +357,147 @@ func runTask(tk *task) *result {
 			}
 		}
 	}
+	livePass(tk, r, res)
 	return res
+}
+
+// livePass drives ONE long-lived RendezvousHash through a history of membership
+// changes - host replacements (RemoveNode+AddNode in either order, and back),
+// re-weighting of a label, single additions and removals, and no change at all -
+// and looks the same key up immediately before and immediately after every
+// change, with or without lookups of other keys in between. Every answer must
+// equal the answer of a freshly built hash over the current node set, and the
+// nodes untouched by the change must keep their relative order.
+func livePass(tk *task, r *rand.Rand, res *result) {
+	if tk.liveSteps == 0 || len(tk.keys) == 0 {
+		return
+	}
+	res.liveKinds = map[string]int64{}
+	cur := permNodes(r, tk.nodes)
+	live := build(tk.p, cur)
+	serial := 0
+	freshLabel := func() node {
+		serial++
+		b := tk.nodes[r.Intn(len(tk.nodes))]
+		return node{fmt.Sprintf("%s-r%d", b.Label, serial), 1 + r.Intn(500)}
+	}
+	var focus []string
+	for k := range tk.special {
+		focus = append(focus, k)
+	}
+	sort.Strings(focus)
+	for len(focus) < 48 {
+		focus = append(focus, tk.keys[r.Intn(len(tk.keys))])
+	}
+	lookup := func(rh *hrw.RendezvousHash, k string, want int) []string {
+		return labels(rh.GetOrderedNodes(k, want))
+	}
+	var lastRemoved *node
+	for step := 0; step < tk.liveSteps; step++ {
+		k := focus[r.Intn(len(focus))]
+		nBefore := len(cur)
+		before := lookup(live, k, nBefore)
+		res.liveLookups++
+
+		var removed, added []node
+		kind := ""
+		remove := func(i int) {
+			x := cur[i]
+			live.RemoveNode(x.Label)
+			cur = append(append([]node(nil), cur[:i]...), cur[i+1:]...)
+			removed = append(removed, x)
+		}
+		add := func(x node) {
+			live.AddNode(x.Label, x.Weight)
+			cur = append(cur, x)
+			added = append(added, x)
+		}
+		switch c := r.Intn(12); {
+		case c < 3 && len(cur) >= 1: // host replacement, remove first
+			kind = "replace/remove-then-add"
+			remove(r.Intn(len(cur)))
+			add(freshLabel())
+		case c < 5 && len(cur) >= 1: // host replacement, add first
+			kind = "replace/add-then-remove"
+			i := r.Intn(len(cur))
+			add(freshLabel())
+			remove(i)
+		case c < 6 && lastRemoved != nil && len(cur) >= 1: // replace back: the host removed earlier returns
+			kind = "replace/previously-removed-host-returns"
+			back := *lastRemoved
+			inCur := false
+			for _, x := range cur {
+				if x.Label == back.Label {
+					inCur = true
+				}
+			}
+			if inCur {
+				kind = "none"
+				break
+			}
+			remove(r.Intn(len(cur)))
+			add(back)
+		case c < 8 && len(cur) >= 1: // same label, new weight
+			kind = "reweight/remove-then-add-same-label"
+			i := r.Intn(len(cur))
+			x := cur[i]
+			remove(i)
+			x.Weight = 1 + r.Intn(500)
+			add(x)
+		case c < 9 && len(cur) < 18:
+			kind = "add"
+			add(freshLabel())
+		case c < 10 && len(cur) >= 2:
+			kind = "remove"
+			remove(r.Intn(len(cur)))
+		default:
+			kind = "none"
+		}
+		if len(removed) > 0 {
+			x := removed[0]
+			lastRemoved = &x
+		}
+		interleaved := r.Intn(3) == 0
+		if interleaved {
+			// another key in between (a memo keyed on the last lookup would be displaced)
+			lookup(live, focus[r.Intn(len(focus))], len(cur))
+			res.liveLookups++
+		}
+		want := len(cur)
+		if r.Intn(4) == 0 {
+			want = r.Intn(len(cur) + 3)
+		}
+		after := lookup(live, k, want)
+		res.liveLookups++
+		res.liveSteps++
+		res.liveKinds[kind]++
+		fresh := lookup(build(tk.p, permNodes(r, cur)), k, want)
+		w := func() map[string]interface{} {
+			return map[string]interface{}{"pairing": tk.p.name, "key": k, "step": step, "change": kind, "removed": removed, "added": added,
+				"lookup_of_another_key_in_between": interleaved, "n": want, "nodes_now": cur,
+				"answer_before_change": before, "answer_after_change": after, "fresh_hash_answer": fresh}
+		}
+		class := strings.SplitN(kind, "/", 2)[0]
+		if !eq(after, fresh) {
+			res.add("live-hash-answer-differs-from-fresh-hash/after-"+class+"/"+tk.p.name, w())
+			continue
+		}
+		// minimal disruption on the live object (full lists only)
+		if want >= len(cur) && len(before) == nBefore {
+			b, a := before, after
+			for _, x := range removed {
+				b = without(b, x.Label)
+				a = without(a, x.Label) // re-weighted label: compare the others only
+			}
+			for _, x := range added {
+				a = without(a, x.Label)
+				b = without(b, x.Label)
+			}
+			if !eq(a, b) {
+				res.add("membership-change-reorders-untouched-nodes/"+class+"/"+tk.p.name, w())
+			}
+		}
+	}
 }
 
 func TestC22(t *testing.T) {
@@ -358,6 +506,8 @@ func TestC22(t *testing.T) {
 			"(murmur3+UInt64ToFloat64 as shipped in ring and CAStore; sha256/md5/murmur3+BigIntToFloat64). Keys: for the shipped pairing ALL 65536 four-hex shard ids "+
 			"+ all 256 upper- and lower-case two-hex keys + random even-length hex keys up to 128 digits; for the other pairings a PRNG sample of those. "+
 			"Each node set is populated in 6 insertion orders/histories; every node is removed and re-added, and new nodes are added. "+
+			"For murmur3 pairings crafted keys (murmur3 inverted) whose hash with one node's label has 53 zero low bits drive the score through its re-hash branch. "+
+			"One long-lived hash per key chunk goes through host replacements (both orders, and back), re-weighting, single adds/removes with same-key lookups right before and after, compared with a fresh hash. "+
 			"One case = (pairing, node set); non-trivial when it has >= 2 nodes.")
 	defer run.Finish()
 	run.Assume("keys are valid even-length hex strings (Score returns NaN for anything else; such keys are outside the statement)")
@@ -379,6 +529,9 @@ func TestC22(t *testing.T) {
 	stride := run.N(4, 1)
 	nLong := run.N(1024, 8192)
 	nSample := run.N(3072, 12288)
+	nCrafted := run.N(6, 24)  // crafted re-hash keys per node
+	nLive := run.N(400, 3000) // membership-change steps on a long-lived hash, per key chunk
+	craftedKeys := 0
 	const chunks = 4
 
 	var tasks []*task
@@ -416,11 +569,35 @@ func TestC22(t *testing.T) {
 		for i := 0; i < nLong; i++ {
 			keys = append(keys, gen.Hex(r, 2*(1+r.Intn(64))))
 		}
+		// crafted keys: murmur3-64(key||label) has its low 53 bits zero for one of the
+		// nodes (or a newcomer), so scoring takes UInt64ToFloat64's re-hash branch
+		special := map[string]bool{}
+		if strings.HasPrefix(p.name, "murmur3") {
+			targets := append(append([]node(nil), nodes...), newcomers...)
+			for _, nd := range targets {
+				for j := 0; j < nCrafted; j++ {
+					if k, ok := gen.MurmurRehashKey(r, nd.Label); ok {
+						if !special[k] {
+							special[k] = true
+							keys = append(keys, k)
+						}
+					} else {
+						t.Fatalf("crafting a re-hash key for label %q failed its self-check", nd.Label)
+					}
+				}
+			}
+		}
+		craftedKeys += len(special)
 		c := &caseInfo{id: fmt.Sprintf("%s/%d", p.name, ci), key: ev.JSON(map[string]interface{}{"p": p.name, "nodes": nodes}), n: n, style: style}
 		for ch := 0; ch < chunks; ch++ {
 			lo, hi := ch*len(keys)/chunks, (ch+1)*len(keys)/chunks
 			tk := &task{id: c.id, p: p, nodes: nodes, style: style, keys: keys[lo:hi], stride: stride,
-				seed: r.Int63(), nperms: 6, newcomers: newcomers}
+				seed: r.Int63(), nperms: 6, newcomers: newcomers, special: map[string]bool{}, liveSteps: nLive}
+			for _, k := range tk.keys {
+				if special[k] {
+					tk.special[k] = true
+				}
+			}
 			c.tasks = append(c.tasks, tk)
 		}
 		if rc := run.ReplayCase(); rc != "" && rc != c.id {
@@ -465,6 +642,7 @@ func TestC22(t *testing.T) {
 	close(next)
 	wg.Wait()
 
+	run.Count("crafted_rehash_keys", int64(craftedKeys))
 	for _, c := range cases {
 		run.Case(c.key, c.n >= 2)
 		run.Distinct("node_set_sizes", fmt.Sprint(c.n))
@@ -478,6 +656,12 @@ func TestC22(t *testing.T) {
 			run.Count("addition_checks", res.additions)
 			run.Count("prefix_checks", res.prefixes)
 			run.Count("keys_with_equal_scores", res.ties)
+			run.Count("rehash_branch_hits", res.rehashHits)
+			run.Count("live_hash_change_steps", res.liveSteps)
+			run.Count("live_hash_lookups", res.liveLookups)
+			for k, v := range res.liveKinds {
+				run.Count("live_hash_steps_"+k, v)
+			}
 			if res.distinctPerms > maxPerms {
 				maxPerms = res.distinctPerms
 			}
